@@ -354,3 +354,17 @@ func (h *TraceHook) unusedAtEvals() []string {
 	}
 	return out
 }
+
+// tryClause evaluates a program-point clause; ok=false when one of its names is not in use at this point.
+func (e *Exec) tryClause(en *evalEnv, text string, x Expr) (t *Term, ok bool) {
+	defer func() {
+		if r := recover(); r != nil {
+			if u, isU := r.(unsupported); isU && strings.Contains(u.msg, "unknown identifier") {
+				ok = false
+				return
+			}
+			panic(r)
+		}
+	}()
+	return e.evalClause(en, &Clause{Text: text, Expr: x}), true
+}
